@@ -35,6 +35,12 @@ Events (first element = tag):
                                                            application may change its routes in between
     ('ivdone', k, verdict, t)                              the suspended Interest validator of k answers
     ('detach', prefix, t)                                  appv2 detach_handler / legacy unset_interest_filter
+    ('repr', i, kind, t, 0)                                harness level (harness/props/_namebufs.py): the Express of i that
+                                                           follows hands its name over in representation `kind` (URI, encoded
+                                                           name, component lists, views of caller-owned buffers, ...)
+    ('scrib', mode, t, 0)                                  harness level: the caller overwrites every buffer it handed to
+                                                           express so far.  Model and specification see neither (names are
+                                                           values there; a scrib only advances the clock)
 Verdicts: v2: 0 FAIL 1 TIMEOUT 2 SILENCE 3 PASS 4 ALLOW_BYPASS 5 (raise TimeoutError);  v1: index into V1_VALUES.
 """
 import asyncio
@@ -44,6 +50,7 @@ import hashlib
 import logging
 
 from harness.lib import vtloop
+from harness.props import _namebufs as NB
 
 # the incoming Interest being processed: (k, verdict, deferred).  Set when the packet is handed to the application; the
 # task the application creates for it (submit_interest) inherits the context, so a validator / handler that runs later -
@@ -179,6 +186,9 @@ class World:
         self.cur_k = None
         self.ivfut = {}            # k -> future a suspended Interest validator is waiting on
         self.detach_errors = []
+        self.nb = NB.Buffers()     # what the caller owns: buffers handed to express, where the expressed names live in them
+        self.reprs = {}            # i -> representation kind of the next Express of i
+        self.k = 0                 # index of the event being run
         self.main = self.loop.create_task(self.app.main_loop())
         self.loop.settle()
 
@@ -269,10 +279,13 @@ class World:
         return n
 
     def ev_express(self, i, name, cbp, dig, life, vmode):
-        n = self.full_name(name, dig)
+        n0 = self.full_name(name, dig)
         val = self.make_validator(i, vmode)
+        kind = self.reprs.pop(i, None)
 
         def fn():
+            # the representation is built AT express time (a shared receive buffer is rewritten for this very call)
+            n = n0 if kind is None else self.nb.represent(i, n0, kind, dig is not None)
             if self.fe == 'v2':
                 self.coros[i] = self.app.express(n, val, lifetime=life, can_be_prefix=cbp, nonce=1000 + i)
             else:
@@ -509,6 +522,14 @@ class World:
             self.position(t, 0)
             self.apply(self.ev_interest(k, name, has_params, sig, digest_ok, None, deferred=True), 0)
             return
+        if tag == 'repr':
+            self.reprs[ev[1]] = ev[2]
+            return
+        if tag == 'scrib':
+            self.position(ev[2], 0)
+            self.apply(lambda: self.nb.scribble(ev[1]), 0)
+            self.nb.note_changes(self.k)
+            return
         if tag in ('ivdone', 'detach'):
             self.position(ev[-1], 0)
             try:
@@ -538,6 +559,8 @@ class World:
             self.apply(fn, tie)
         except Exception as e:      # noqa
             self.errors.append((tag, type(e).__name__))
+        if tag == 'express' and self.nb.tracks:
+            self.nb.note_changes(self.k)      # an express through the shared receive buffer rewrote earlier names
 
     def pit_sizes(self):
         tree = self.app._pit if self.fe == 'v2' else self.app._int_tree
@@ -546,7 +569,8 @@ class World:
 
     def run(self, history):
         self.n_attach = 0
-        for ev in history:
+        for k, ev in enumerate(history):
+            self.k = k
             self.step(ev)
         nodes, entries = self.pit_sizes()
         gc.collect()
@@ -575,6 +599,7 @@ class World:
             'ivcalls': list(self.ivcalls),
             'ivwho': list(self.ivwho),
             'validated_before': dict(self.validated_before),
+            'alias_changes': self.nb.report(),
         }
         return obs
 
@@ -673,11 +698,15 @@ def m_event(fe, ev):
         return [0, [9, k, list(name), hp, sig, dok, m_verdict(fe, verdict), t]]
     if tag == 'setdefault':
         return [0, [10, ev[1], ev[2]]]
+    if tag == 'scrib':
+        return [0, [7, ev[2]]]        # names are values in the model: a rewrite of the caller's buffers only lets time pass
+    if tag == 'repr':
+        return None
     raise ValueError(tag)
 
 
 def m_history(fe, h):
-    return [m_event(fe, e) for e in h]
+    return [m for m in (m_event(fe, e) for e in h) if m is not None]
 
 
 def fe_num(fe):
@@ -741,6 +770,7 @@ def canon_impl(fe, obs):
         'ivcalls': list(obs['ivcalls']),
         'ivwho': list(obs.get('ivwho', [])),
         'validated_before': obs.get('validated_before', {}),
+        'alias_changes': obs.get('alias_changes', []),
     }
 
 
@@ -1337,13 +1367,67 @@ def fix_digest_names(h):
     return out
 
 
+class _Diverted:
+    """Stands in for ctx while a history of a not-yet-decided defect shape is looked at: oracle failures are collected,
+    not reported."""
+    def __init__(self, ctx):
+        self.ctx = ctx
+        self.found = []
+
+    def call(self, req):
+        return self.ctx.call(req)
+
+    def violation(self, site, cls, what, case):
+        self.found.append((site, cls))
+
+
+def open_alias_shape(ctx, fe, h, changes):
+    """Caller-owned name buffers (harness/props/_namebufs.py).  `changes`: (i, k, name changed, digest changed) - after event
+    k the caller's buffers no longer hold the components Interest i was expressed with.  Returns the name of the shape when
+    the history is one that shows one of the two aliasing defects of the UNCHANGED library this family found (docs/C03.md,
+    'Caller-owned name buffers'; awaiting the integrator's decision), else None:
+      digest-in-caller-buffer   Interest i carries an implicit digest, is still PENDING (specification state) after the
+                                rewrite and its digest component was rewritten: express_raw_interest keeps
+                                Component.get_value(final_name[-1]) - a view of the caller's memory - as the digest to compare
+      node-name-in-caller-buffer  Interest i is still PENDING after a rewrite of its name components and ends by its OWN
+                                timeout or cancellation (not by Data, Nack or shutdown): the coroutine _wait_for_data looks
+                                its table node up again under node_name, which is the caller's list of components
+    Everything else - in particular every Interest that is answered by a Data or a Nack, or ends at a shutdown, after the
+    rewrite - is judged as usual."""
+    if not changes:
+        return None
+    ids = expressed_ids(h)
+    final = spec_states(ctx, fe, h, ids)
+    ks = next((k for k, ev in enumerate(h) if ev[0] == 'shutdown'), None)
+    before_shut = spec_states(ctx, fe, h[:ks], ids) if ks is not None else None
+    for i, k, nc, dc in changes:
+        if spec_states(ctx, fe, h[:k + 1], [i])[i][0] != 1:
+            continue                      # not in the table any more when its buffer was rewritten
+        if dc:
+            return 'digest-in-caller-buffer'
+        f = final[i]
+        if nc and f[0] == 3 and (f[1] == (3,) or (f[1] == (4,) and (before_shut is None or before_shut[i][0] == 3))):
+            return 'node-name-in-caller-buffer'
+    return None
+
+
 def check_history(ctx, fe, h, tag, prop, with_oracle=True):
     h = fix_digest_names(h)
     m = run_model(ctx, fe, h)
     r = canon_impl(fe, run_impl(fe, h))
-    same = compare(ctx, 'pipeline', fe, h, m, r)
     wf = is_wf(h)
     dwf = not wf and is_wf_deferred(h, fe)
+    shape = open_alias_shape(ctx, fe, h, r['alias_changes']) if (wf or dwf) else None
+    if shape is not None and not NB.JUDGE_OPEN_SHAPES:
+        # a shape that shows an aliasing defect of the unchanged library which is reported but not decided yet: looked at,
+        # counted (evidence: '<fe>.buffers.open-shape...'), not judged and not compared with the model
+        d = _Diverted(ctx)
+        oracle(d, fe, h, r, prop)
+        ctx.stat(f'{fe}.buffers.open-shape.{shape}')
+        if d.found:
+            ctx.stat(f'{fe}.buffers.open-shape.{shape}.oracle-fails')
+        return True, m, r
+    same = compare(ctx, 'pipeline', fe, h, m, r)
     if len(set(m['log_ids'])) != len(m['log_ids']):
         ctx.disagree('model', 'model completed an Interest twice', {'frontend': fe, 'history': h}, m['log_ids'], None)
     if (wf or (dwf and fe in DEFERRED_ORACLE)) and with_oracle:
@@ -1364,6 +1448,8 @@ def check_history(ctx, fe, h, tag, prop, with_oracle=True):
     if dwf and fe not in DEFERRED_ORACLE:
         ctx.stat(f'{fe}.deferred-await.not-judged')
     ctx.stat(f'{fe}.ties', ties)
+    if r['alias_changes']:
+        ctx.stat(f'{fe}.buffers.rewritten-while-expressed')
     for i, (o, _) in r['completion'].items():
         ctx.stat(f'{fe}.outcome.{o[0]}')
     return same, m, r
